@@ -938,11 +938,55 @@ def check(tier, seed):
         'diffLoop_sound_of_admissible shows the result is the same for every semantically correct oracle',
         'programs are kept well-conditioned (|intermediate values of u| <= 30 at the sample points)',
     ]
+    sp_bad = special_checks()
+    rep.coverage['special_point_batches_failed'] = len(sp_bad)
+    failing += sp_bad
     for f in failing[:3]:
         rep.violation(dict(kind='failing-input', input=f, broken=broken))
     if broken and not failing:
         rep.violation(dict(kind='unproved', broken=broken), found_input=False, name='unproved')
     return rep.finish(checker_cmd='cd lean && lake build NdeVerif.Proofs.C03 && lake env lean --run drivers/C03.lean < scripts')
+
+
+def special_checks():
+    """batches in which EVERY row sits on a stationary slice (a lower-order derivative vanishes in all rows), and derivatives that
+    are constants: the random programs never produce them, and the value at a row must not depend on the other rows"""
+    import torch
+    from neurodiffeq import diff
+    bad = []
+    col = lambda *v: torch.tensor([[float(a)] for a in v], requires_grad=True)
+    cases = [
+        ('x*cos(t), every row at t = 0, order 2', lambda x, t: x * torch.cos(t), (0.5, -1.0, 2.0), (0.0, 0.0, 0.0), 2, lambda x, t: -x),
+        ('(t-1)^2, every row at t = 1, order 2', lambda x, t: (t - 1) ** 2 + 0 * x, (0.5, -1.0, 2.0), (1.0, 1.0, 1.0), 2, lambda x, t: 0 * x + 2),
+        ('t^3 + x, every row at t = 0, order 3', lambda x, t: t ** 3 + x, (0.5, -1.0, 2.0), (0.0, 0.0, 0.0), 3, lambda x, t: 0 * x + 6),
+        ('sin(t)^2 * x, every row at t = 0, order 2', lambda x, t: torch.sin(t) ** 2 * x, (0.5, -1.0, 2.0), (0.0, 0.0, 0.0), 2, lambda x, t: 2 * x),
+        ('cos(t), every row at t = 0, order 4', lambda x, t: torch.cos(t) + 0 * x, (0.5, -1.0, 2.0), (0.0, 0.0, 0.0), 4, lambda x, t: 0 * x + 1),
+    ]
+    for name, f, xs, ts, k, want in cases:
+        try:
+            x, t = col(*xs), col(*ts)
+            got = diff(f(x, t), t, order=k)
+            w = want(x.detach(), t.detach())
+            if got.shape != w.shape or not torch.allclose(got.detach(), w, rtol=0, atol=1e-12):
+                bad.append(dict(case='every row on a stationary slice', expression=name, order=k, got=got.detach().reshape(-1).tolist(),
+                                want=w.reshape(-1).tolist(), violated=['diff differs from the k-th partial derivative']))
+        except Exception as e:
+            bad.append(dict(case='every row on a stationary slice', expression=name, violated=[f'diff raised {type(e).__name__}: {e}']))
+    # a derivative that is a constant can itself be differentiated (zeros) and back-propagated
+    for name, f, k in (('3t + sin(x)', lambda x, t: 3 * t + torch.sin(x), 1), ('t^2 + x/2', lambda x, t: t * t + x / 2, 2), ('t', lambda x, t: t, 1)):
+        try:
+            x, t = col(0.5, -1.0, 2.0), col(0.3, 0.6, -0.9)
+            d = diff(f(x, t), t, order=k)
+            for nm, v in (('x', x), ('t', t)):
+                dd = diff(d, v)
+                if float(dd.detach().abs().max()) != 0.0:
+                    bad.append(dict(case='derivative of a constant derivative', expression=name, wrt=nm, got=dd.detach().reshape(-1).tolist(),
+                                    violated=['not zero']))
+            d.sum().backward()
+        except Exception as e:
+            bad.append(dict(case='a constant derivative cannot be differentiated / back-propagated', expression=name,
+                            violated=[f'{type(e).__name__}: {e}']))
+    return bad
 
 
 def replay(path):
